@@ -20,6 +20,9 @@ class PLISTNode(ContainerNode):
     def to_obj(self):
         return self.root.to_obj()
 
+    def __repr__(self):
+        return f"{self.__class__.__name__}({self.root!r})"
+
     def edits(self, node: 'TreeNode') -> Edit:
         if isinstance(node, PLISTNode):
             return EditCollection(
